@@ -76,6 +76,13 @@ BFS_SEEDS = [
 ]
 
 
+# C11 only: an import chain over three modules (m1 uses m2, m2 uses m3 through a plain `import`), so that a single step two
+# modules away from the user - an import put in front of m3, closing a cycle when all modules are in one package - is among
+# the exhaustive single steps
+CHAIN_SEEDS = [
+    ('import m2\npub fn t() { m2.w(1) }\n', 'import m3\npub fn w(x) { m3.v(x) }\n', 'pub fn v(x) { x + 1 }\n'),
+]
+
 LEX_FAILS = []
 SCALE = None      # Workspace.ScaleCases as printed by the last Workspace run
 
@@ -185,11 +192,11 @@ def damaged_workspaces(out, tier, seed):
     return ws, multi + extra_truncations(), allseeds
 
 
-def bfs_seeds(allseeds, tier):
+def bfs_seeds(allseeds, tier, more=()):
     """the seeds of the exhaustive single-step damage: the smallest generated program(s) and the compact hand-written ones"""
     liblex = lex(LIB)
     small = sorted(allseeds, key=lambda w: sum(len(f["lex"]) for f in w["files"]))[:(1 if tier == "quick" else 4)]
-    for t in BFS_SEEDS:
+    for t in BFS_SEEDS + list(more):
         ms = [lex(x) for x in t] if isinstance(t, tuple) else [lex(t), liblex]
         small.append({"files": [{"name": f"m{k + 1}", "lex": m} for k, m in enumerate(ms)]})
     return small
@@ -197,7 +204,7 @@ def bfs_seeds(allseeds, tier):
 
 def single_step_histories(out, tier, seed, allseeds):
     """C11: every workspace one damage step from a BFS seed, as two histories: seed -> damaged and damaged -> seed"""
-    small = bfs_seeds(allseeds, tier)
+    small = bfs_seeds(allseeds, tier, CHAIN_SEEDS)
     sp = write_seeds(small, "ws-seeds-bfs11")
     r = vlib.tlc("Workspace", "Workspace_damage.cfg", workers=8, timeout=3000, heap="8g", env={"SEEDS": sp}, name="Workspace-damage-c11")
     vlib.require_ok(r, "Workspace damage")
@@ -210,6 +217,9 @@ def single_step_histories(out, tier, seed, allseeds):
         a = {"op": {"k": "seed", "f": 0, "i": 0, "x": ""}, "files": s, "dep": True, "dup": False, "batched": False}
         b = {"op": {"k": "damage", "f": 0, "i": 0, "x": ""}, "files": c["files"], "dep": True, "dup": False, "batched": False}
         hs.append((a, b))
+        if len(s) >= 3:
+            # the same step with all modules in one package (only there can imports form a cycle)
+            hs.append((dict(a, one=True), dict(b, one=True)))
     return hs
 
 
